@@ -132,6 +132,39 @@ class Contract:
         return None
 
 
+def canary(cls, case, clause):
+    """register a canary for an existing contract: the NEGATION of one of its proved clauses must be refuted
+    (with a model) on every run — shows that the pipeline can say no on this very function"""
+
+    class Canary(cls):
+        pass
+
+    Canary.kind = "canary"
+    Canary.cases = [case]
+    Canary.__name__ = "Canary_" + cls.__name__
+    Canary.__doc__ = "canary: negation of %s/%s[%s] must be refuted" % (cls.target, clause, case)
+    parent_ensures = cls.ensures
+
+    def ensures(self, c, path):
+        found = False
+        for name, f in parent_ensures(self, c, path):
+            if name == clause:
+                found = True
+                if isinstance(f, Sym):
+                    f = f.e
+                if isinstance(f, bool):
+                    f = z3.BoolVal(f)
+                yield "must_fail/" + clause, z3.Not(f)
+        return
+
+    Canary.ensures = ensures
+    Canary.replay = lambda self, *a: None
+    Canary.target = cls.target
+    Canary.properties = list(cls.properties)
+    REGISTRY.append(Canary)
+    return Canary
+
+
 class Result:
     def __init__(self, name, target, case, clause, kind):
         self.name, self.target, self.case, self.clause, self.kind = name, target, case, clause, kind
